@@ -1,7 +1,7 @@
 PROPERTIES = ['C03', 'C02']
 BOUNDS = {
     'quick': 'element type Tracked (non-trivial, every special member reports to the lifetime ledger); one operation from every content state: '
-             'copy+move elements at capacity 3 (second vector / source block size NB in {0,1,3}), move-only elements at capacity 2 (NB in {0,1}); pre-size NA in 0..CAP (enumerated); copy-only elements and elements with defaulted (trivial) assignment but user-provided constructors/destructor at capacity 2 from pre-size 1; '
+             'copy+move elements at capacity 3 (second vector / source block size NB in {0,3}), move-only elements at capacity 2 (NB in {0,1}); pre-size NA in 0..CAP (enumerated); copy-only elements and elements with defaulted (trivial) assignment but user-provided constructors/destructor at capacity 2 from pre-size 1; '
              'element values, object bytes before construction symbolic, positions / counts / new sizes symbolic (case-split); histories of 2 symbolic operations at capacity 2: '
              'static_vector from pre-size 1, one query per first operation (12 op codes), inplace_vector from every pre-size (6 op codes), copy+move elements',
     'thorough': 'copy+move elements at capacities 0..3 with every (NA, NB) and at capacity 4 with NB in {0,4}; move-only and copy-only elements at capacity 3 (NB in {0,1,3}), defaulted-assignment elements at capacity 2 (every NB); '
@@ -65,7 +65,7 @@ def queries(tier, prop='C03'):
     only_na = {}
     nops = {0: 12, 1: 8, 2: 11}   # static_vector history op codes per flavour (driver.cpp SV_NOPS)
     if tier == 'quick':
-        grid = [(0, 3, (0, 1, 3)), (1, 2, (0, 1)), (2, 2, (0, 1)), (3, 2, (0, 1))]   # (flavour, capacity, NB values of two-vector / range operations)
+        grid = [(0, 3, (0, 3)), (1, 2, (0, 1)), (2, 2, (0, 1)), (3, 2, (0, 1))]   # (flavour, capacity, NB values of two-vector / range operations); NB 1 at capacity 3 is thorough-only (quick-tier budget)
         only_na = {2: (1,), 3: (1,)}   # quick: copy-only elements from the middle pre-size only (every pre-size in the thorough tier)
         hist = [('q_sv_hist', 0, 2, 2, 1, f) for f in range(nops[0])] + [('q_iv_hist', 0, 2, 2, na, None) for na in (0, 1, 2)]
     else:
@@ -89,7 +89,7 @@ def queries(tier, prop='C03'):
                     if not applicable(e, cap, na, nb): continue
                     if fl == 1 and e in NEED_COPY: continue
                     q = dict(entry='q_' + e, cfg={'FLAV': fl, 'CAP': cap, 'NA': na, 'NB': nb, 'LG_SLOTS': 2 * cap + 2}, unwind=cap + 3, unwindset=uw(objsz + 2),
-                             budget=120 if tier == 'quick' else 600, ub=ub, nofunc=ub, solver=SOLVER.get(e, 'minisat'))
+                             budget=120 if tier == 'quick' else 600, ub=ub, nofunc=ub, solver=SOLVER.get(e, ['cadical', 'minisat']))
                     if e in KF_WHOLE and KF_WHOLE[e][1](na): q['kf_only'] = KF_WHOLE[e][0]
                     out.append(q)
     for (e, fl, cap, k, na, first) in hist:
@@ -98,6 +98,7 @@ def queries(tier, prop='C03'):
         out.append(dict(entry=e, cfg=cfg, unwind=cap + 3, unwindset=uw(cap * 8 + 18), object_bits=14,
                         budget=300 if tier == 'quick' else 2400, ub=ub, nofunc=ub))
     for q_ in out:
+        q_.setdefault('solver', ['cadical', 'minisat'])
         q_['lazy_trace'] = True   # verdict first, counterexample trace only when an obligation fails (engine/runner.py)
         if q_['cfg'].get('FLAV') == 3: q_['cbmc_flags'] = ['--max-field-sensitivity-array-size', '256']   # defaulted assignment = memcpy through pointers: keep the ledger global field-sensitive
     return out
